@@ -340,6 +340,15 @@ func visitInstr(fr *frame, instr ssa.Instruction) continuation {
 				panic(rtPanic("runtime error: invalid memory address or nil pointer dereference"))
 			}
 			a := (*x).(array)
+			if t, ok := idx.(*Term); ok {
+				// a lookup table of constants read at a symbolic position: select the element by
+				// an ITE over runs of equal values instead of forking once per position
+				if sel, ok := tableSelect(instr, a, t); ok {
+					var cell value = sel
+					fr.env[instr] = &cell
+					break
+				}
+			}
 			i := concIndex(idx, len(a))
 			fr.env[instr] = &a[i]
 		default:
@@ -397,6 +406,67 @@ func visitInstr(fr *frame, instr ssa.Instruction) continuation {
 }
 
 // concIndex makes an index concrete, forking as needed; out-of-range raises the Go panic.
+// tableSelect: instr addresses array a (all elements concrete integers of one kind) at symbolic
+// index t and the address is only ever loaded from. Returns the selected element as a term.
+func tableSelect(instr *ssa.IndexAddr, a array, t *Term) (value, bool) {
+	if len(a) == 0 || len(a) > 256 {
+		return nil, false
+	}
+	refs := instr.Referrers()
+	if refs == nil {
+		return nil, false
+	}
+	for _, r := range *refs {
+		u, ok := r.(*ssa.UnOp)
+		if !ok || u.Op != token.MUL {
+			return nil, false
+		}
+	}
+	et := mustDeref(instr.Type())
+	k := basicKind(et)
+	switch k {
+	case types.Int, types.Int8, types.Int16, types.Int32, types.Int64, types.Uint, types.Uint8, types.Uint16, types.Uint32, types.Uint64:
+	default:
+		return nil, false
+	}
+	srt, _ := kindSort(k)
+	if srt != SBV8 && srt != SBV16 && srt != SBV32 && srt != SBV64 {
+		return nil, false
+	}
+	vals := make([]uint64, len(a))
+	for i, e := range a {
+		if isSym(e) {
+			return nil, false
+		}
+		et := toTerm(e)
+		if et == nil || !et.isConst() {
+			return nil, false
+		}
+		vals[i] = et.val
+	}
+	if t.sort != SBV64 {
+		t = mkZext(t, SBV64)
+	}
+	in := mkAnd(mkCmp(OpSle, mkConst(SBV64, 0), t), mkCmp(OpSlt, t, mkConst(SBV64, uint64(len(a)))))
+	if !I.x.branch(in) {
+		panic(rtPanic(fmt.Sprintf("runtime error: index out of range with length %d", len(a))))
+	}
+	acc := selectRun(vals, len(vals)-1, srt, t)
+	return fromTerm(acc, k), true
+}
+
+// selectRun builds the selection among positions 0..hi.
+func selectRun(vals []uint64, hi int, srt Sort, t *Term) *Term {
+	acc := mkConst(srt, vals[hi])
+	for i := hi - 1; i >= 0; i-- {
+		if vals[i] == vals[i+1] {
+			continue
+		}
+		return mkIte(mkCmp(OpSle, t, mkConst(SBV64, uint64(i))), selectRun(vals, i, srt, t), acc)
+	}
+	return acc
+}
+
 func concIndex(idx value, n int) int {
 	if t, ok := idx.(*Term); ok {
 		if n == 0 {
@@ -481,7 +551,7 @@ func callSSA(caller *frame, callpos token.Pos, fn *ssa.Function, args []value, e
 			return ext(fr, args)
 		}
 		if fn.Pkg != nil && fn.Pkg != I.mainPkg {
-			if fn.Name() == "init" {
+			if fn.Name() == "init" && !initialisedPkgs[fn.Pkg.Pkg.Path()] {
 				return nil // dependency initialisers are not executed
 			}
 			if !interpretedPkgs[fn.Pkg.Pkg.Path()] {
@@ -628,10 +698,14 @@ func doRecover(caller *frame) value {
 }
 
 // packages (besides the main one) whose SSA bodies are interpreted
+// interpreted dependencies whose package initialiser (lookup tables) is executed too
+var initialisedPkgs = map[string]bool{"unicode/utf8": true}
+
 var interpretedPkgs = map[string]bool{
 	"container/heap": true,
 	"sort":           true,
 	"slices":         true,
 	"cmp":            true,
 	"errors":         true,
+	"unicode/utf8":   true, // pure Go over bytes
 }
